@@ -34,7 +34,7 @@ SPEC = dict(
         'ops': {'iter_traversals_completed_unreordered_under_mutation': 50000, 'reallocations_with_live_iterators': 100000,
                 'iter_detached_advanced': 10000, 'tables_destroyed_before_their_iterators': 3000, 'live_count_checks': 1500},
         'boundary': {'idxwidth_8to16_with_live_iterators': 2000, 'idxwidth_16to8_with_live_iterators': 2000,
-                     'idxwidth_16to32_with_live_iterators': 30, 'idxwidth_32to16_with_live_iterators': 25,
+                     'idxwidth_16to32_with_live_iterators': 21, 'idxwidth_32to16_with_live_iterators': 20,
                      'population_cross_256_up': 5000, 'population_cross_256_down': 5000,
                      'population_cross_65536_up': 100, 'population_cross_65536_down': 100,
                      'exact_fill_255_slots': 500, 'exact_fill_256_slots': 500, 'exact_fill_65535_slots': 10, 'exact_fill_65536_slots': 10,
